@@ -316,6 +316,13 @@ func runVersion(c VersionCase) *harn.Failure {
 			f = harn.Failf("marshal-stable", "marshal(read(marshal(flow))) differs from marshal(flow)")
 			return
 		}
+		// 13.1-13.5: a templated send_msg keeps its template, its variables and each language's translated variables
+		if vLess(c.Version, "13.5.0") {
+			if ff := templatingKept(c.Flow, migrated); ff != nil {
+				f = ff
+				return
+			}
+		}
 		// 13.3: templates keep their value under the rename relation
 		if vLess(c.Version, "13.3.0") {
 			if ff := webhookRelation(c.Flow, migrated); ff != nil {
@@ -360,6 +367,109 @@ func sameJSON(a, b []byte) bool {
 	ba, _ := json.Marshal(x)
 	bb, _ := json.Marshal(y)
 	return string(ba) == string(bb)
+}
+
+// templatingKept is a model of what the templating migrations (13.1 uuid, 13.4 components, 13.5 template + template_variables)
+// must preserve: per templated send_msg the template reference, the variables in order (all components' params
+// concatenated), and per language the translated variables - a component's translated params where it has them, its
+// base params where only other components are translated, and no translation at all where none is.
+func templatingKept(orig, migrated []byte) *harn.Failure {
+	type flowDoc struct {
+		Nodes []struct {
+			Actions []map[string]any `json:"actions"`
+		} `json:"nodes"`
+		Localization map[string]map[string]map[string][]any `json:"localization"`
+	}
+	var before, after flowDoc
+	if json.Unmarshal(orig, &before) != nil || json.Unmarshal(migrated, &after) != nil {
+		return nil
+	}
+	strs := func(in []any) []string {
+		out := make([]string, len(in))
+		for i, v := range in {
+			out[i], _ = v.(string)
+		}
+		return out
+	}
+	afterActions := map[string]map[string]any{}
+	for _, n := range after.Nodes {
+		for _, a := range n.Actions {
+			afterActions[fmt.Sprint(a["uuid"])] = a
+		}
+	}
+	langs := make([]string, 0, len(before.Localization))
+	for l := range before.Localization {
+		langs = append(langs, l)
+	}
+	sort.Strings(langs)
+	for _, n := range before.Nodes {
+		for _, a := range n.Actions {
+			tg, ok := a["templating"].(map[string]any)
+			if !ok || a["type"] != "send_msg" {
+				continue
+			}
+			id := fmt.Sprint(a["uuid"])
+			base := []string{}
+			trans := map[string][]string{}
+			translated := map[string]bool{}
+			if comps, ok := tg["components"].([]any); ok {
+				for _, ci := range comps {
+					comp, _ := ci.(map[string]any)
+					params, _ := comp["params"].([]any)
+					base = append(base, strs(params)...)
+					for _, l := range langs {
+						if tr, has := before.Localization[l][fmt.Sprint(comp["uuid"])]["params"]; has {
+							trans[l] = append(trans[l], strs(tr)...)
+							translated[l] = true
+						} else {
+							trans[l] = append(trans[l], strs(params)...)
+						}
+					}
+				}
+			} else {
+				vars, _ := tg["variables"].([]any)
+				base = strs(vars)
+				if tid, has := tg["uuid"]; has {
+					for _, l := range langs {
+						if tr, has := before.Localization[l][fmt.Sprint(tid)]["variables"]; has {
+							trans[l] = strs(tr)
+							translated[l] = true
+						}
+					}
+				}
+			}
+			m := afterActions[id]
+			if m == nil {
+				return harn.Failf("templating-kept", "templated send_msg %s is gone after migration", id)
+			}
+			if _, still := m["templating"]; still {
+				return harn.Failf("templating-kept", "send_msg %s still has a templating object after migration", id)
+			}
+			wantTpl, _ := json.Marshal(tg["template"])
+			gotTpl, _ := json.Marshal(m["template"])
+			if string(wantTpl) != string(gotTpl) {
+				return harn.Failf("templating-kept", "send_msg %s: template %s became %s", id, wantTpl, gotTpl)
+			}
+			gotVars, _ := m["template_variables"].([]any)
+			if strings.Join(strs(gotVars), "\x00") != strings.Join(base, "\x00") || len(gotVars) != len(base) {
+				return harn.Failf("templating-kept", "send_msg %s: variables %q became %q", id, base, strs(gotVars))
+			}
+			for _, l := range langs {
+				got, has := after.Localization[l][id]["template_variables"]
+				if !translated[l] {
+					if has {
+						return harn.Failf("templating-kept", "send_msg %s: language %s had no translated variables, after migration it has %q", id, l, strs(got))
+					}
+					continue
+				}
+				if !has || len(got) != len(trans[l]) || strings.Join(strs(got), "\x00") != strings.Join(trans[l], "\x00") {
+					return harn.Failf("templating-kept", "send_msg %s: language %s translated variables %q became %q", id, l, trans[l], strs(got))
+				}
+			}
+			stats.Label("templating-checked")
+		}
+	}
+	return nil
 }
 
 // webhookRelation: every action text of the original evaluated with webhook=V equals the migrated text evaluated with
